@@ -181,6 +181,7 @@ func main() {
 		runRedirect(base.StatusFound, true)
 		runFallback(false)
 		runFallback(true)
+		runKeyPrecedence()
 	}
 
 	// execution order: the mixed-profile scenarios (defined last, so that the names and seeds of
